@@ -651,7 +651,17 @@ where
                         }
                         Ok(None) => {
                             if end_of_message {
-                                let eof_result = recognizer.decode_eof(src)?;
+                                let eof_result = match recognizer.decode_eof(src) {
+                                    Ok(result) => result,
+                                    Err(e) => {
+                                        // Discard what is left of the body and keep the following frames.
+                                        let unconsumed = src.remaining();
+                                        src.unsplit(rem);
+                                        src.advance(unconsumed);
+                                        *state = RequestState::ReadingHeader;
+                                        break Err(e.into());
+                                    }
+                                };
                                 let final_remaining = src.remaining();
                                 let consumed = new_remaining - final_remaining;
                                 *remaining -= consumed;
